@@ -94,3 +94,52 @@ Proof.
         { cbn [last_coord touched]. destruct (ca <=? cb) eqn:E; [lia|]. reflexivity. }
         { rewrite last_coord_cons by discriminate. reflexivity. }
 Qed.
+
+Lemma last_coord_head : forall c t xs, all_gt c xs -> ssorted_f xs ->
+  exists m, last_coord ((c, t) :: xs) = Some m /\ c <= m.
+Proof.
+  intros c t xs Hg Hs. destruct xs as [|y xs']. { exists c. split; auto. lia. }
+  destruct (last_coord_ge c (y :: xs') Hg ltac:(discriminate) Hs) as (m & Hm & Hlt).
+  exists m. rewrite last_coord_cons by discriminate. split; auto. lia.
+Qed.
+
+(* ... and the rows for its second operand are the elements of ys touched against xs *)
+Lemma and_go_b_rows : forall r la lb ta, la <> lb ->
+  forall xs, ssorted_f xs -> forall ys, ssorted_f ys -> forall apos bpos pre,
+  uses lb (all_events (and_go r la lb ta true xs ys apos bpos pre))
+  = uses lb pre ++ rows_of bpos (touched (last_coord xs) ys).
+Proof.
+  intros r la lb ta Hl.
+  assert (Ha : forall c p, uses lb (opt_ev ta (EUse r c p K_INT la)) = []).
+  { intros c p. destruct ta; cbn; auto. destruct (la =? lb) eqn:E; auto. lia. }
+  induction xs as [|[ca pa] xs IHx]; intros Hsx ys Hsy apos bpos pre.
+  - cbn [and_go last_coord]. unfold all_events, rows_of. cbn [fst snd flat_map app].
+    rewrite !uses_app. rewrite touched_none.
+    destruct ys as [|[cb pb] ys]; cbn; rewrite ?Z.eqb_refl; cbn; rewrite ?app_nil_r; auto.
+  - destruct Hsx as [Hgx Hsx]. revert bpos pre.
+    induction ys as [|[cb pb] ys IHy]; intros bpos pre.
+    + cbn [and_go touched]. unfold all_events, rows_of.
+      cbn [fst snd flat_map app enumZ map]. rewrite !uses_app, Ha. cbn. rewrite app_nil_r. reflexivity.
+    + destruct Hsy as [Hgy Hsy'].
+      destruct (last_coord_head ca pa xs Hgx Hsx) as (m & Hm & Hle).
+      cbn [and_go]. destruct (ca =? cb) eqn:Eeq; [|destruct (ca <? cb) eqn:Elt].
+      * apply Z.eqb_eq in Eeq. subst cb.
+        unfold all_events. cbn [fst snd flat_map]. rewrite <- app_assoc.
+        fold (all_events (and_go r la lb ta true xs ys (apos + 1) (bpos + 1) [])).
+        rewrite uses_app, (IHx Hsx ys Hsy'), !uses_app, Ha. cbn [uses flat_map opt_ev].
+        rewrite !Z.eqb_refl. cbn [andb app]. rewrite <- app_assoc. f_equal.
+        unfold rows_of. rewrite Hm. cbn [touched]. destruct (ca <=? m) eqn:E; [|lia].
+        cbn [enumZ map fst snd app]. f_equal. f_equal.
+        destruct xs as [|x xs'].
+        { cbn [last_coord] in *. inversion Hm. subst m. rewrite touched_gt, touched_none by auto. reflexivity. }
+        { rewrite last_coord_cons in Hm by discriminate. rewrite Hm. reflexivity. }
+      * rewrite (IHx Hsx ((cb, pb) :: ys) (conj Hgy Hsy')), !uses_app, Ha. cbn [uses flat_map app].
+        rewrite app_nil_r. f_equal.
+        destruct xs as [|x xs'].
+        { cbn [last_coord touched]. destruct (cb <=? ca) eqn:E; [lia|]. reflexivity. }
+        { rewrite last_coord_cons by discriminate. reflexivity. }
+      * specialize (IHy Hsy'). cbn [and_go] in IHy. rewrite IHy. rewrite !uses_app. cbn [uses flat_map opt_ev].
+        rewrite !Z.eqb_refl. cbn [andb app]. rewrite <- !app_assoc. f_equal.
+        unfold rows_of. rewrite Hm. cbn [touched]. destruct (cb <=? m) eqn:E; [|lia].
+        cbn [enumZ map fst snd app]. reflexivity.
+Qed.
